@@ -113,6 +113,21 @@ def step (st : St) (line : String) : St × String :=
     match parseQ st b1 u1 with
     | some a => (st, unop st op a)
     | none => (st, "bad-unit")
+  | ["vm", op, b1, u1, b2, u2] =>
+    match parseQ st b1 u1, parseQ st b2 u2 with
+    | some a, some b =>
+      let showB : Except QErr Bool → String
+        | .ok v => s!"bool {v}"
+        | .error _ => "err incompatible"
+      (st, match op with
+        | "lt" => showB (vmCompare st.tbl .lt a b)
+        | "gt" => showB (vmCompare st.tbl .gt a b)
+        | "le" => showB (vmCompare st.tbl .le a b)
+        | "ge" => showB (vmCompare st.tbl .ge a b)
+        | "eq" => s!"bool {vmEq st.tbl a b}"
+        | "ne" => s!"bool {vmNe st.tbl a b}"
+        | _ => "bad-op")
+    | _, _ => (st, "bad-unit")
   | [op, b1, u1, b2, u2] =>
     match parseQ st b1 u1, parseQ st b2 u2 with
     | some a, some b => (st, binop st op a b)
